@@ -160,3 +160,29 @@ func (a *Account) Sign(msg []byte) []byte {
 }
 
 func (a *Account) IsMulti() bool { return a.Priv == nil }
+
+// SignShort is Sign with one signature left out of the innermost multisignature (a nested component if there is
+// one, the top level otherwise): somebody did not sign.
+func (a *Account) SignShort(msg []byte) []byte {
+	if a.Priv != nil {
+		return a.Sign(msg)
+	}
+	ms := crypto.MultiSignature{}
+	nested := -1
+	for i, sub := range a.Subs {
+		if sub.IsMulti() {
+			nested = i
+		}
+	}
+	for i, sub := range a.Subs {
+		switch {
+		case i == nested:
+			ms.Sigs = append(ms.Sigs, sub.SignShort(msg))
+		case nested < 0 && i == len(a.Subs)-1:
+			// left out
+		default:
+			ms.Sigs = append(ms.Sigs, sub.Sign(msg))
+		}
+	}
+	return ms.Marshal()
+}
